@@ -905,6 +905,15 @@ func withCaps(ops []string, mode string) []string {
 // a node capacity below its need; D1b: the evictable embedded leaf of a dirty / removed-through
 // node) and everything else, which gets a signature of its own and is a violation.
 func refine(ops []string, d string) string {
+	if strings.Contains(d, "`getwlf") && strings.Contains(d, "node_not_found") {
+		for _, op := range ops {
+			if strings.HasPrefix(op, "forkfinalize") {
+				// the write log of the finalized candidate cannot be read because a node it refers to
+				// was deleted with the discarded competitors: D7 seen through GetWriteLog
+				return "fork-finalize-loses-node:getwritelog"
+			}
+		}
+	}
 	if strings.Contains(d, "fork-write-log") || strings.Contains(d, "`getwlf") {
 		return "fork-write-log-divergence"
 	}
